@@ -275,6 +275,11 @@ Definition known_prefix (p : N) : bool :=
 Definition known_status (s : N) : bool :=
   (s =? st_enabled) || (s =? st_disabled) || (s =? st_destroyed).
 
+(* the output prefix types validateKey lets through: the four classic ones and
+   WITH_ID_REQUIREMENT (5; /repo 4b80d2c - before that fix a keyset holding an
+   ML-DSA key of variant NoPrefixWithPrehashID could be written and never read) *)
+Definition valid_prefix (p : N) : bool := known_prefix p || (p =? pt_with_id_requirement).
+
 (* validateKey *)
 Definition validate_key (k : option pkey) : bool :=
   match k with
@@ -282,7 +287,7 @@ Definition validate_key (k : option pkey) : bool :=
   | Some k =>
       match k_data k with
       | None => false
-      | Some _ => known_prefix (k_prefix k) && known_status (k_status k)
+      | Some _ => valid_prefix (k_prefix k) && known_status (k_status k)
       end
   end.
 
@@ -1394,12 +1399,35 @@ Definition secret_material (m : N) : bool :=
 Definition has_secrets (ks : keyset) : bool :=
   existsb (fun k => secret_material (key_material k)) (ks_keys ks).
 
-(* keyset.NewHandleWithNoSecrets (ks = nil: hasSecrets(nil) = false, then
-   Validate(nil) fails) *)
+(* What a key object serialises to (protoserialization.SerializeKey): the
+   serializer of every key type writes the material type of the TYPE, not the
+   label the key came in with; the fallback key returns a clone of the KeyData
+   it was built from. *)
+Definition out_material (e : entry) : N :=
+  match ekey e with
+  | PHmac _ _ _ | PAesCmac _ _ | PAesGcm _ | PAesGcmSiv _ | PAesCtrHmac _ _ _ _ _ | PAesSiv _
+  | PHkdfPrf _ _ | PHmacPrf _ _ | PAesCmacPrf _ | PChaCha _ | PXChaCha _ | PXAesGcm _ _ => km_symmetric
+  | PEcdsaPub _ _ _ _ | PRsaPkcs1Pub _ _ _ | PRsaPssPub _ _ _ _ => km_public
+  | PEcdsaPriv _ _ _ _ _ => km_private
+  | PFallback _ => emat e
+  | d => more_material d      (* Ed25519, RSA private, ECIES, HPKE, streaming AEAD, JWT, ML-DSA public, SLH-DSA *)
+  end.
+
+(* hasSecrets on entriesToProtoKeyset(h.entries): some key object serialises
+   to material that is not public or remote *)
+Definition handle_has_secrets (h : handle) : bool :=
+  existsb (fun e => secret_material (out_material e)) h.
+
+(* keyset.NewHandleWithNoSecrets (/repo b141c20): the label test, then the
+   construction of the handle, then the same test on the keyset re-serialised
+   from the parsed keys - what WriteWithNoSecrets looks at (ks = nil:
+   hasSecrets(nil) = false, then Validate(nil) fails) *)
 Definition handle_no_secrets (ks : option keyset) : outcome handle :=
   match ks with
   | None => Err
-  | Some k => if has_secrets k then Err else handle_from_proto ks
+  | Some k =>
+      if has_secrets k then Err
+      else bind (handle_from_proto ks) (fun h => if handle_has_secrets h then Err else Ok h)
   end.
 
 (* keyset.ReadWithNoSecrets(keyset.NewBinaryReader(b)) *)
